@@ -474,6 +474,10 @@ class Checker:
         """which of  <G>/<1> (Ratio),  <G> (Raw),  (<G>, <1>) (Pair)  did the call return?  Decided against the
         dense reference independently of what was requested; the model's table (C13/Options.v route_class) must
         predict exactly this class.  Ambiguous or unclassifiable results are left to the oracle."""
+        if self.expo(ref) != 0.0:
+            # on exponent-bearing states the open finding (sub-network routes ignore the exponent) can make a raw value
+            # coincide with the ratio (tensors of norm 1): the class is only read off exponent-free states
+            return
         try:
             obs = None
             if isinstance(res, tuple) and len(res) == 2:
@@ -1077,9 +1081,6 @@ def stage_option_cube(ctx, cases):
     (check_state_scaled: (10^k)^2 x the model's value on the tensors, justified by C13_scaled_state_*)."""
     rng = ctx.rng
 
-    def mps_key(name, e):
-        return None
-
     def peps_key(name, e):
         if isinstance(e, KeyError) and name.startswith("peps.compute_local_expectation"):
             return "tn2d.compute_local_expectation:pair_not_ascending:KeyError"
@@ -1091,17 +1092,14 @@ def stage_option_cube(ctx, cases):
     for n in range(ctx.n(1, 3)):
         fams.append(("ring", gen_graph(rng, n=rng.randint(3, 5), ring=True)[0], dict(ring=True, max_k=2)))
     for n in range(ctx.n(1, 3)):
-        fams.append(("mps", gen_mps(rng, L=rng.randint(3, 5)), dict(extra_routes=mps_extra, raise_key=mps_key)))
+        fams.append(("mps", gen_mps(rng, L=rng.randint(3, 5)), dict(extra_routes=mps_extra)))
     for n, (Lx, Ly) in enumerate([(2, 2)] if ctx.quick else [(2, 2), (2, 3), (3, 2)]):
         fams.append((f"peps{Lx}x{Ly}", gen_peps(rng, Lx, Ly), dict(extra_routes=peps_routes, raise_key=peps_key)))
     for n, (kind, tn, kw) in enumerate(fams):
         sid = f"cube_{kind}_{n}"
         sites = list(tn.sites)
         a, b = rng.sample(sites, 2)
-        if kind.startswith("peps"):  # 2D plaquette routes: pairs are keyed in either order, single sites as (i, j)
-            wl = [(a, b), (rng.choice(sites),)]
-        else:
-            wl = [(a, b), (rng.choice(sites),)]
+        wl = [(a, b), (rng.choice(sites),)]  # one pair in random order, one single site
         for label, net, k in scale_variants(rng, tn, ctx.quick, sid):
             ctx.bump("scale:" + label)
             run_state(ctx, cases, kind, net, f"{sid}_{label}", where_list=wl, n_ops=1, cube=True,
